@@ -411,6 +411,19 @@ func (ctrl *Controller[Input, Output]) cleanupOutputs(
 		return fmt.Errorf("error listing output resources: %w", err)
 	}
 
+	if ctrl.options.inputFinalizers {
+		// input finalizers are released below for every output this list does not show, so it has to
+		// come from the state itself: a read cache might not have seen the controller's own writes yet
+		var outputList resource.List
+
+		outputList, err = r.ListUncached(ctx, outputMetadata)
+		if err != nil {
+			return fmt.Errorf("error listing output resources: %w", err)
+		}
+
+		outputItems = safe.NewList[Output](outputList)
+	}
+
 	for out := range outputItems.All() {
 		// output not owned by this controller, skip it
 		if out.Metadata().Owner() != ctrl.Name() {
